@@ -273,6 +273,1198 @@ Qed.
 
 Lemma wf_ty_underlying t : wf_ty t = true -> wf_ty (underlying t) = true.
 Proof.
-  induction t using ty_ind2; cbn [underlying]; intros H; try exact H.
-  apply IHt. cbn [wf_ty] in H. apply andb_true_iff in H. apply H.
+  induction t as [| | | | | | | | | | | |fs _| | |outs _|n r d u IHu|] using ty_ind2; cbn [underlying]; intros Hw; try exact Hw.
+  apply IHu. cbn [wf_ty] in Hw. apply andb_true_iff in Hw. apply Hw.
 Qed.
+
+(* ------------------------------------------------------------------ *)
+(* 4. indirection                                                      *)
+(* ------------------------------------------------------------------ *)
+Lemma bind_nil_prefix (r : res (list token)) : bind r (fun ts => Ok ([] ++ ts)) = r.
+Proof. destruct r; reflexivity. Qed.
+
+Theorem marshal_ptr o t v : marshal o (TPtr t) (GPtr (Some v)) = marshal o t v.
+Proof. rewrite (marshal_eq o (TPtr t)). apply bind_nil_prefix. Qed.
+
+Theorem marshal_any o t v : marshal o TAny (GAny (Some (t, v))) = marshal o t v.
+Proof. rewrite (marshal_eq o TAny). apply bind_nil_prefix. Qed.
+
+Theorem marshal_nil_ptr o t : marshal o (TPtr t) (GPtr None) = Ok [T KNil VNone].
+Proof. reflexivity. Qed.
+
+Theorem marshal_nil_any o : marshal o TAny (GAny None) = Ok [T KNil VNone].
+Proof. reflexivity. Qed.
+
+(* the pointee / dynamic value is all that is seen, at any depth, also through named types *)
+Theorem marshal_ptr_named o t e v : reg_prefix t = [] -> underlying t = TPtr e ->
+  marshal o t (GPtr (Some v)) = marshal o e v.
+Proof.
+  intros Hr Hu. rewrite (marshal_eq o t). rewrite Hr. cbn [marshal_body]. unfold ptr_ty. rewrite Hu.
+  apply bind_nil_prefix.
+Qed.
+
+Example marshal_ptr_ex :
+  marshal default_opts (TPtr (TPtr (TInt W8))) (GPtr (Some (GPtr (Some (GInt 5))))) = Ok [T KInt8 (VI W8 5)] /\
+  marshal default_opts TAny (GAny (Some (TPtr TBool, GPtr (Some (GBool true))))) = Ok [T KBool (VBool true)].
+Proof. split; reflexivity. Qed.
+
+(* ------------------------------------------------------------------ *)
+(* 5. the reference mapping clauses                                    *)
+(* ------------------------------------------------------------------ *)
+(* the body depends on the type only through its underlying type *)
+Lemma underlying_idem t : underlying (underlying t) = underlying t.
+Proof.
+  induction t as [| | | | | | | | | | | |fs _| | |outs _|n r d u IHu|] using ty_ind2; try reflexivity.
+  exact IHu.
+Qed.
+
+Lemma marshal_body_underlying o t t' v : underlying t = underlying t' ->
+  marshal_body o t v = marshal_body o t' v.
+Proof.
+  intros E. destruct v as [b|z|n|b|b|s|n s|n items|n es|vals|p|d|r|enc]; cbn [marshal_body];
+    unfold elem_ty, map_kt, map_vt, struct_fs, ptr_ty, func_outs; try rewrite E; reflexivity.
+Qed.
+
+Theorem marshal_unreg o t v : reg_prefix t = [] -> marshal o t v = marshal_body o t v.
+Proof. intros Hr. rewrite marshal_eq, Hr. apply bind_nil_prefix. Qed.
+
+(* a defined type that is not registered marshals like its underlying type *)
+Theorem marshal_named_unreg o n d u v : reg_prefix u = [] ->
+  marshal o (TNamed n false d u) v = marshal o u v.
+Proof.
+  intros Hr. rewrite (marshal_unreg o (TNamed n false d u)) by reflexivity.
+  rewrite (marshal_unreg o u v Hr). apply marshal_body_underlying. reflexivity.
+Qed.
+
+(* a registered type: the TypeName token, then the stream of the underlying type *)
+Theorem marshal_named_reg o n d u v : reg_prefix u = [] ->
+  marshal o (TNamed n true d u) v = bind (marshal o u v) (fun ts => Ok (T KTypeName (VStr n) :: ts)).
+Proof.
+  intros Hr. rewrite (marshal_eq o (TNamed n true d u)). rewrite (marshal_unreg o u v Hr).
+  rewrite (marshal_body_underlying o (TNamed n true d u) u v) by reflexivity. reflexivity.
+Qed.
+
+(* in general only the outermost name counts *)
+Theorem marshal_named_reg_gen o n d u v :
+  marshal o (TNamed n true d u) v =
+  bind (marshal_body o (underlying u) v) (fun ts => Ok (T KTypeName (VStr n) :: ts)).
+Proof.
+  rewrite (marshal_eq o (TNamed n true d u)).
+  rewrite (marshal_body_underlying o (TNamed n true d u) (underlying u) v); [reflexivity|].
+  cbn [underlying]. symmetry. apply underlying_idem.
+Qed.
+
+(* scalars *)
+Theorem marshal_bool o b : marshal o TBool (GBool b) = Ok [T KBool (VBool b)].
+Proof. reflexivity. Qed.
+Theorem marshal_int o w z : marshal o (TInt w) (GInt z) = Ok [T (kind_of_int w) (VI w z)].
+Proof. reflexivity. Qed.
+Theorem marshal_uint o w n : marshal o (TUint w) (GUint n) = Ok [T (kind_of_uint w) (VU w n)].
+Proof. reflexivity. Qed.
+Theorem marshal_uintptr o n : marshal o TUintptr (GUint n) = Ok [T KPointer (VPtr n)].
+Proof. reflexivity. Qed.
+Theorem marshal_string o s : marshal o TString (GStr s) = Ok [T KString (VStr s)].
+Proof. reflexivity. Qed.
+Theorem marshal_time o enc : marshal o TTime (GTime enc) = Ok [T KString (VStr enc)].
+Proof. reflexivity. Qed.
+
+(* ... and through any chain of unregistered names: the kind is that of the underlying type *)
+Theorem marshal_int_under o t w z : reg_prefix t = [] -> underlying t = TInt w ->
+  marshal o t (GInt z) = Ok [T (kind_of_int w) (VI w z)].
+Proof. intros Hr Hu. rewrite (marshal_unreg o t _ Hr). cbn [marshal_body]. rewrite Hu. reflexivity. Qed.
+Theorem marshal_uint_under o t w n : reg_prefix t = [] -> underlying t = TUint w ->
+  marshal o t (GUint n) = Ok [T (kind_of_uint w) (VU w n)].
+Proof. intros Hr Hu. rewrite (marshal_unreg o t _ Hr). cbn [marshal_body]. rewrite Hu. reflexivity. Qed.
+Theorem marshal_uintptr_under o t n : reg_prefix t = [] -> underlying t = TUintptr ->
+  marshal o t (GUint n) = Ok [T KPointer (VPtr n)].
+Proof. intros Hr Hu. rewrite (marshal_unreg o t _ Hr). cbn [marshal_body]. rewrite Hu. reflexivity. Qed.
+Theorem marshal_int_named o n d w z :
+  marshal o (TNamed n false d (TInt w)) (GInt z) = Ok [T (kind_of_int w) (VI w z)].
+Proof. reflexivity. Qed.
+Theorem marshal_int_registered o n d w z :
+  marshal o (TNamed n true d (TInt w)) (GInt z) = Ok [T KTypeName (VStr n); T (kind_of_int w) (VI w z)].
+Proof. reflexivity. Qed.
+
+(* bool, string, bytes, time and floats do not look at the type at all (beyond the TypeName prefix) *)
+Theorem marshal_bool_any o t b : marshal o t (GBool b) = Ok (reg_prefix t ++ [T KBool (VBool b)]).
+Proof. rewrite marshal_eq. reflexivity. Qed.
+Theorem marshal_string_any o t s : marshal o t (GStr s) = Ok (reg_prefix t ++ [T KString (VStr s)]).
+Proof. rewrite marshal_eq. reflexivity. Qed.
+Theorem marshal_bytes_any o t n s : marshal o t (GBytes n s) = Ok (reg_prefix t ++ [T KBytes (VBytes s)]).
+Proof. rewrite marshal_eq. reflexivity. Qed.
+Theorem marshal_f64_any o t b :
+  marshal o t (GF64 b) = Ok (reg_prefix t ++ [if f64_is_nan b then T KNaN VNone else T KFloat64 (VF64 b)]).
+Proof. rewrite marshal_eq. cbn [marshal_body]. destruct (f64_is_nan b); reflexivity. Qed.
+Theorem marshal_f32_any o t b :
+  marshal o t (GF32 b) = Ok (reg_prefix t ++ [if f32_is_nan b then T KNaN VNone else T KFloat32 (VF32 b)]).
+Proof. rewrite marshal_eq. cbn [marshal_body]. destruct (f32_is_nan b); reflexivity. Qed.
+
+(* floats: NaN becomes the NaN token, everything else keeps its exact bits *)
+Theorem marshal_f64_nan o b : f64_is_nan b = true -> marshal o TF64 (GF64 b) = Ok [T KNaN VNone].
+Proof. intros H. rewrite (marshal_unreg o TF64) by reflexivity. cbn [marshal_body]. rewrite H. reflexivity. Qed.
+Theorem marshal_f64_num o b : f64_is_nan b = false -> marshal o TF64 (GF64 b) = Ok [T KFloat64 (VF64 b)].
+Proof. intros H. rewrite (marshal_unreg o TF64) by reflexivity. cbn [marshal_body]. rewrite H. reflexivity. Qed.
+Theorem marshal_f32_nan o b : f32_is_nan b = true -> marshal o TF32 (GF32 b) = Ok [T KNaN VNone].
+Proof. intros H. rewrite (marshal_unreg o TF32) by reflexivity. cbn [marshal_body]. rewrite H. reflexivity. Qed.
+Theorem marshal_f32_num o b : f32_is_nan b = false -> marshal o TF32 (GF32 b) = Ok [T KFloat32 (VF32 b)].
+Proof. intros H. rewrite (marshal_unreg o TF32) by reflexivity. cbn [marshal_body]. rewrite H. reflexivity. Qed.
+
+(* byte slices and byte arrays: one Bytes token *)
+Theorem marshal_bytes o n s : marshal o TBytes (GBytes n s) = Ok [T KBytes (VBytes s)].
+Proof. reflexivity. Qed.
+Theorem marshal_byte_array o k n s : marshal o (TByteArray k) (GBytes n s) = Ok [T KBytes (VBytes s)].
+Proof. reflexivity. Qed.
+
+(* sequencing of sub-streams: left to right, the first failure wins *)
+Fixpoint concat_res (l : list (res (list token))) : res (list token) :=
+  match l with
+  | [] => Ok []
+  | r :: rest => bind r (fun a => bind (concat_res rest) (fun b => Ok (a ++ b)))
+  end.
+
+(* arrays and slices: the element streams between Array and ArrayEnd *)
+Theorem marshal_list_spec o et items :
+  marshal_list o et items = concat_res (map (marshal o et) items).
+Proof.
+  induction items as [|x r IH]; [reflexivity|].
+  rewrite marshal_list_cons. cbn [map concat_res]. rewrite IH. reflexivity.
+Qed.
+
+Theorem marshal_slice o e n items :
+  marshal o (TSlice e) (GList n items) =
+  bind (concat_res (map (marshal o e) items)) (fun body => Ok (T KArray VNone :: body ++ [T KArrayEnd VNone])).
+Proof.
+  rewrite (marshal_unreg o (TSlice e)) by reflexivity. cbn [marshal_body].
+  rewrite marshal_list_spec. reflexivity.
+Qed.
+
+Theorem marshal_array o k e n items :
+  marshal o (TArray k e) (GList n items) =
+  bind (concat_res (map (marshal o e) items)) (fun body => Ok (T KArray VNone :: body ++ [T KArrayEnd VNone])).
+Proof.
+  rewrite (marshal_unreg o (TArray k e)) by reflexivity. cbn [marshal_body].
+  rewrite marshal_list_spec. reflexivity.
+Qed.
+
+(* structs: the exported fields in declaration order, each as its name then its value stream;
+   unexported fields are skipped *)
+Definition struct_body (o : copts) (fs : list (bytes * bool * ty)) (vals : list gval) : res (list token) :=
+  concat_res (map (fun p => bind (marshal o (snd (fst p)) (snd p))
+                                 (fun a => Ok (T KString (VStr (fname (fst p))) :: a)))
+                  (filter (fun p => fexported (fst p)) (combine fs vals))).
+
+Lemma marshal_fields_spec o : skip_empty o = false -> forall vals fs,
+  marshal_fields o vals fs = struct_body o fs vals.
+Proof.
+  intros Hs. unfold struct_body. induction vals as [|x r IH]; intros [|fd fr]; try reflexivity.
+  rewrite marshal_fields_cons. rewrite Hs. cbn [andb combine filter fst].
+  destruct (fexported fd) eqn:Ex; cbn [negb].
+  - cbn [map concat_res fst snd]. rewrite IH.
+    destruct (marshal o (snd fd) x) as [a|e|]; cbn [bind]; try reflexivity.
+  - apply IH.
+Qed.
+
+Theorem marshal_struct o fs vals : skip_empty o = false ->
+  marshal o (TStruct fs) (GStruct vals) =
+  bind (struct_body o fs vals) (fun body => Ok (T KObject VNone :: body ++ [T KObjectEnd VNone])).
+Proof.
+  intros Hs. rewrite (marshal_unreg o (TStruct fs)) by reflexivity. cbn [marshal_body].
+  unfold struct_fs. cbn [underlying]. rewrite (marshal_fields_spec o Hs). reflexivity.
+Qed.
+
+Example marshal_struct_ex :
+  let fs := [([65], true, TInt W8); ([98], false, TString); ([67], true, TBool)] in
+  let vals := [GInt 3; GStr [120]; GBool true] in
+  struct_body default_opts fs vals =
+    Ok [T KString (VStr [65]); T KInt8 (VI W8 3); T KString (VStr [67]); T KBool (VBool true)] /\
+  marshal default_opts (TStruct fs) (GStruct vals) =
+    Ok [T KObject VNone; T KString (VStr [65]); T KInt8 (VI W8 3);
+        T KString (VStr [67]); T KBool (VBool true); T KObjectEnd VNone].
+Proof. split; reflexivity. Qed.
+
+(* tuple funcs: the results between Tuple and TupleEnd *)
+Lemma marshal_outs_spec o : forall items outs, length items = length outs ->
+  marshal_outs o items outs = concat_res (map (fun p => marshal o (snd p) (fst p)) (combine items outs)).
+Proof.
+  induction items as [|x r IH]; intros [|xt tr] Hl; try reflexivity; try discriminate.
+  rewrite marshal_outs_cons. cbn [combine map concat_res fst snd]. rewrite IH; [reflexivity|].
+  cbn [length] in Hl. lia.
+Qed.
+
+Theorem marshal_func o outs items : ignore_funcs o = false -> length items = length outs ->
+  marshal o (TFunc outs) (GFunc (Some items)) =
+  bind (concat_res (map (fun p => marshal o (snd p) (fst p)) (combine items outs)))
+       (fun body => Ok (T KTuple VNone :: body ++ [T KTupleEnd VNone])).
+Proof.
+  intros Hi Hl. rewrite (marshal_unreg o (TFunc outs)) by reflexivity. cbn [marshal_body].
+  rewrite Hi. unfold func_outs. cbn [underlying]. rewrite (marshal_outs_spec o items outs Hl). reflexivity.
+Qed.
+
+Theorem marshal_func_nil o outs : ignore_funcs o = false ->
+  marshal o (TFunc outs) (GFunc None) = Ok [T KTuple VNone; T KTupleEnd VNone].
+Proof.
+  intros Hi. rewrite (marshal_unreg o (TFunc outs)) by reflexivity. cbn [marshal_body]. rewrite Hi. reflexivity.
+Qed.
+
+Theorem marshal_func_ignored o outs r : ignore_funcs o = true ->
+  marshal o (TFunc outs) (GFunc r) = Ok [T KNil VNone].
+Proof.
+  intros Hi. rewrite (marshal_unreg o (TFunc outs)) by reflexivity. cbn [marshal_body]. rewrite Hi. reflexivity.
+Qed.
+
+Example marshal_func_ex :
+  marshal default_opts (TFunc [TInt WNat; TString]) (GFunc (Some [GInt 1; GStr [97]])) =
+  Ok [T KTuple VNone; T KInt (VI WNat 1); T KString (VStr [97]); T KTupleEnd VNone].
+Proof. reflexivity. Qed.
+
+(* ------------------------------------------------------------------ *)
+(* 1. every emitted token is well formed (and carries no NaN payload)  *)
+(* ------------------------------------------------------------------ *)
+(* all dynamic types occurring in a value are well-formed types *)
+Fixpoint wf_dyn (v : gval) : bool :=
+  match v with
+  | GList _ items => forallb wf_dyn items
+  | GStruct vals => forallb wf_dyn vals
+  | GMap _ es => forallb (fun e => wf_dyn (fst e) && wf_dyn (snd e)) es
+  | GPtr (Some x) => wf_dyn x
+  | GAny (Some (t, x)) => wf_ty t && wf_dyn x
+  | GFunc (Some items) => forallb wf_dyn items
+  | _ => true
+  end.
+
+Lemma wf_cmp_intro k v :
+  kind_shape k v = true -> wf_val v = true -> not_nan_payload v = true -> wf_cmp (T k v) = true.
+Proof.
+  intros H1 H2 H3. unfold wf_cmp, wf_token. cbn [kind val]. rewrite H1, H2, H3. reflexivity.
+Qed.
+
+Lemma wfc_int w z : in_irange w z = true -> wf_cmp (T (kind_of_int w) (VI w z)) = true.
+Proof. intros H. destruct w; (apply wf_cmp_intro; [reflexivity | exact H | reflexivity]). Qed.
+Lemma wfc_uint w n : in_urange w n = true -> wf_cmp (T (kind_of_uint w) (VU w n)) = true.
+Proof. intros H. destruct w; (apply wf_cmp_intro; [reflexivity | exact H | reflexivity]). Qed.
+Lemma wfc_ptr n : (n <? 2 ^ 64) = true -> wf_cmp (T KPointer (VPtr n)) = true.
+Proof. intros H. apply wf_cmp_intro; [reflexivity | exact H | reflexivity]. Qed.
+Lemma wfc_f32 b : (b <? 2 ^ 32) = true -> f32_is_nan b = false -> wf_cmp (T KFloat32 (VF32 b)) = true.
+Proof.
+  intros H Hn. apply wf_cmp_intro; [reflexivity | exact H |].
+  cbn [not_nan_payload]. rewrite Hn. reflexivity.
+Qed.
+Lemma wfc_f64 b : (b <? 2 ^ 64) = true -> f64_is_nan b = false -> wf_cmp (T KFloat64 (VF64 b)) = true.
+Proof.
+  intros H Hn. apply wf_cmp_intro; [reflexivity | exact H |].
+  cbn [not_nan_payload]. rewrite Hn. reflexivity.
+Qed.
+Lemma wfc_str s : wf_bytesb s = true -> wf_cmp (T KString (VStr s)) = true.
+Proof. intros H. apply wf_cmp_intro; [reflexivity | exact H | reflexivity]. Qed.
+Lemma wfc_typename s : wf_bytesb s = true -> wf_cmp (T KTypeName (VStr s)) = true.
+Proof. intros H. apply wf_cmp_intro; [reflexivity | exact H | reflexivity]. Qed.
+Lemma wfc_bytes s : wf_bytesb s = true -> wf_cmp (T KBytes (VBytes s)) = true.
+Proof. intros H. apply wf_cmp_intro; [reflexivity | exact H | reflexivity]. Qed.
+
+Lemma wf_cmps_one tk : wf_cmp tk = true -> wf_cmps [tk].
+Proof. intros H. constructor; [exact H | constructor]. Qed.
+
+Lemma wf_cmps_app a b : wf_cmps a -> wf_cmps b -> wf_cmps (a ++ b).
+Proof. intros Ha Hb. apply Forall_app. split; assumption. Qed.
+
+Lemma wf_cmps_bracket k1 k2 body :
+  wf_cmp (T k1 VNone) = true -> wf_cmp (T k2 VNone) = true -> wf_cmps body ->
+  wf_cmps (T k1 VNone :: body ++ [T k2 VNone]).
+Proof.
+  intros H1 H2 Hb. constructor; [exact H1|]. apply wf_cmps_app; [exact Hb|]. apply wf_cmps_one. exact H2.
+Qed.
+
+Lemma reg_prefix_wf t : wf_ty t = true -> wf_cmps (reg_prefix t).
+Proof.
+  intros Hw. destruct t; try constructor. destruct reg; [|constructor].
+  cbn [reg_prefix]. apply wf_cmps_one. apply wfc_typename.
+  cbn [wf_ty] in Hw. apply andb_true_iff in Hw. apply Hw.
+Qed.
+
+Definition wfP (v : gval) : Prop :=
+  forall o t ts, wf_ty t = true -> has_type t v = true -> wf_dyn v = true ->
+                 marshal o t v = Ok ts -> wf_cmps ts.
+
+Lemma marshal_list_wf o e items : Forall wfP items -> wf_ty e = true ->
+  typed_list e items = true -> forallb wf_dyn items = true ->
+  forall body, marshal_list o e items = Ok body -> wf_cmps body.
+Proof.
+  intros HP He. induction HP as [|x r Hx Hr IH]; intros Ht Hd body Hb.
+  - inversion Hb. constructor.
+  - cbn [typed_list] in Ht. apply andb_true_iff in Ht. destruct Ht as [Htx Htr].
+    cbn [forallb] in Hd. apply andb_true_iff in Hd. destruct Hd as [Hdx Hdr].
+    rewrite marshal_list_cons in Hb.
+    apply bind_ok in Hb. destruct Hb as [a [Ha Hb]].
+    apply bind_ok in Hb. destruct Hb as [b [Hb Hab]]. inversion Hab; subst.
+    apply wf_cmps_app.
+    + exact (Hx o e a He Htx Hdx Ha).
+    + exact (IH Htr Hdr b Hb).
+Qed.
+
+Definition wf_entry (e : entry) : Prop :=
+  wf_cmps (fst (fst e)) /\ wf_cmps (snd (fst e)) /\ wf_cmps (snd e).
+
+Lemma marshal_entries_wf o kt vt es : Forall (fun e => wfP (fst e) /\ wfP (snd e)) es ->
+  wf_ty kt = true -> wf_ty vt = true ->
+  typed_entries kt vt es = true -> forallb (fun e => wf_dyn (fst e) && wf_dyn (snd e)) es = true ->
+  forall ents, marshal_entries o kt vt es = Ok ents -> Forall wf_entry ents.
+Proof.
+  intros HP Hk Hv. induction HP as [|[k x] r [Hpk Hpx] Hr IH]; intros Ht Hd ents Hb.
+  - inversion Hb. constructor.
+  - cbn [fst snd] in Hpk, Hpx.
+    cbn [typed_entries] in Ht. apply andb_true_iff in Ht. destruct Ht as [Ht Htr].
+    apply andb_true_iff in Ht. destruct Ht as [Htk Htx].
+    cbn [forallb fst snd] in Hd. apply andb_true_iff in Hd. destruct Hd as [Hd Hdr].
+    apply andb_true_iff in Hd. destruct Hd as [Hdk Hdx].
+    rewrite marshal_entries_cons in Hb.
+    apply bind_ok in Hb. destruct Hb as [sk [Hsk Hb]].
+    destruct (bad_map_key sk); [discriminate|].
+    apply bind_ok in Hb. destruct Hb as [rest [Hrest Hb]].
+    apply bind_ok in Hb. destruct Hb as [kts [Hkts Hb]].
+    apply bind_ok in Hb. destruct Hb as [vts [Hvts Hb]]. inversion Hb; subst.
+    constructor.
+    + unfold wf_entry. cbn [fst snd]. repeat split.
+      * exact (Hpk default_opts kt sk Hk Htk Hdk Hsk).
+      * exact (Hpk o kt kts Hk Htk Hdk Hkts).
+      * exact (Hpx o vt vts Hv Htx Hdx Hvts).
+    + exact (IH Htr Hdr rest Hrest).
+Qed.
+
+Lemma marshal_fields_wf o vals : Forall wfP vals -> forall fs,
+  forallb (fun f => wf_bytesb (fname f) && wf_ty (snd f)) fs = true ->
+  typed_fields vals fs = true -> forallb wf_dyn vals = true ->
+  forall body, marshal_fields o vals fs = Ok body -> wf_cmps body.
+Proof.
+  intros HP. induction HP as [|x r Hx Hr IH]; intros [|fd fr] Hw Ht Hd body Hb;
+    try (inversion Hb; constructor).
+  cbn [forallb] in Hw. apply andb_true_iff in Hw. destruct Hw as [Hw Hwr].
+  apply andb_true_iff in Hw. destruct Hw as [Hwn Hwt].
+  cbn [typed_fields] in Ht. apply andb_true_iff in Ht. destruct Ht as [Htx Htr].
+  cbn [forallb] in Hd. apply andb_true_iff in Hd. destruct Hd as [Hdx Hdr].
+  rewrite marshal_fields_cons in Hb.
+  destruct (skip_empty o && _); [exact (IH fr Hwr Htr Hdr body Hb)|].
+  destruct (negb (fexported fd)); [exact (IH fr Hwr Htr Hdr body Hb)|].
+  apply bind_ok in Hb. destruct Hb as [a [Ha Hb]].
+  apply bind_ok in Hb. destruct Hb as [b [Hb Hab]]. inversion Hab; subst.
+  constructor; [apply wfc_str; exact Hwn|].
+  apply wf_cmps_app.
+  - exact (Hx o (snd fd) a Hwt Htx Hdx Ha).
+  - exact (IH fr Hwr Htr Hdr b Hb).
+Qed.
+
+Lemma marshal_outs_wf o items : Forall wfP items -> forall outs,
+  forallb wf_ty outs = true -> typed_outs items outs = true -> forallb wf_dyn items = true ->
+  forall body, marshal_outs o items outs = Ok body -> wf_cmps body.
+Proof.
+  intros HP. induction HP as [|x r Hx Hr IH]; intros [|xt tr] Hw Ht Hd body Hb;
+    try (inversion Hb; constructor).
+  cbn [forallb] in Hw. apply andb_true_iff in Hw. destruct Hw as [Hwt Hwr].
+  cbn [typed_outs] in Ht. apply andb_true_iff in Ht. destruct Ht as [Htx Htr].
+  cbn [forallb] in Hd. apply andb_true_iff in Hd. destruct Hd as [Hdx Hdr].
+  rewrite marshal_outs_cons in Hb.
+  apply bind_ok in Hb. destruct Hb as [a [Ha Hb]].
+  apply bind_ok in Hb. destruct Hb as [b [Hb Hab]]. inversion Hab; subst.
+  apply wf_cmps_app.
+  - exact (Hx o xt a Hwt Htx Hdx Ha).
+  - exact (IH tr Hwr Htr Hdr b Hb).
+Qed.
+
+(* insertion sort is a permutation *)
+Lemma insert_entry_perm e l : Permutation (insert_entry e l) (e :: l).
+Proof.
+  induction l as [|x r IH]; cbn [insert_entry]; [apply Permutation_refl|].
+  destruct (key_le e x); [apply Permutation_refl|].
+  apply perm_trans with (x :: e :: r); [apply perm_skip; exact IH | apply perm_swap].
+Qed.
+
+Lemma sort_entries_perm l : Permutation (sort_entries l) l.
+Proof.
+  induction l as [|e r IH]; [apply Permutation_refl|].
+  unfold sort_entries. cbn [fold_right]. fold (sort_entries r).
+  apply perm_trans with (e :: sort_entries r); [apply insert_entry_perm | apply perm_skip; exact IH].
+Qed.
+
+Lemma map_stream_wf ents : Forall wf_entry ents -> wf_cmps (map_stream ents).
+Proof.
+  intros H. unfold map_stream. apply wf_cmps_bracket; try reflexivity.
+  assert (Hs : Forall wf_entry (sort_entries ents)).
+  { exact (Permutation_Forall (Permutation_sym (sort_entries_perm ents)) H). }
+  induction Hs as [|e r He Hr IH]; [constructor|].
+  cbn [flat_map]. destruct He as [_ [Hk Hv]].
+  apply wf_cmps_app; [apply wf_cmps_app; assumption | exact IH].
+Qed.
+
+Lemma marshal_wfP v : wfP v.
+Proof.
+  induction v as [b|z|n|b|b|s|n s|n items IH|n es IH|vals IH| |x IH| |t' x IH| |items IH|enc] using gval_ind2;
+    intros o t ts Hw Ht Hd Hm; apply marshal_inv in Hm; destruct Hm as [body [Hb Hts]]; subst ts;
+    (apply wf_cmps_app; [apply reg_prefix_wf; exact Hw|]);
+    apply wf_ty_underlying in Hw.
+  - inversion Hb. apply wf_cmps_one. reflexivity.
+  - cbn [marshal_body] in Hb. cbn [has_type] in Ht.
+    destruct (underlying t); try discriminate. inversion Hb. apply wf_cmps_one. apply wfc_int. exact Ht.
+  - cbn [marshal_body] in Hb. cbn [has_type] in Ht.
+    destruct (underlying t); try discriminate; inversion Hb; apply wf_cmps_one.
+    + apply wfc_uint. exact Ht.
+    + apply wfc_ptr. exact Ht.
+  - cbn [marshal_body] in Hb. cbn [has_type] in Ht.
+    destruct (underlying t); try discriminate.
+    destruct (f32_is_nan b) eqn:En; inversion Hb; apply wf_cmps_one; [reflexivity|].
+    apply wfc_f32; assumption.
+  - cbn [marshal_body] in Hb. cbn [has_type] in Ht.
+    destruct (underlying t); try discriminate.
+    destruct (f64_is_nan b) eqn:En; inversion Hb; apply wf_cmps_one; [reflexivity|].
+    apply wfc_f64; assumption.
+  - cbn [marshal_body] in Hb. cbn [has_type] in Ht.
+    destruct (underlying t); try discriminate. inversion Hb. apply wf_cmps_one. apply wfc_str. exact Ht.
+  - cbn [marshal_body] in Hb. cbn [has_type] in Ht. inversion Hb. apply wf_cmps_one. apply wfc_bytes.
+    destruct (underlying t); try discriminate.
+    + apply andb_true_iff in Ht. apply Ht.
+    + apply andb_true_iff in Ht. destruct Ht as [Ht _]. apply andb_true_iff in Ht. apply Ht.
+  - cbn [marshal_body] in Hb. rewrite has_type_list in Ht. unfold elem_ty in Hb. cbn [wf_dyn] in Hd.
+    apply bind_ok in Hb. destruct Hb as [l [Hl Hb]]. inversion Hb.
+    apply wf_cmps_bracket; try reflexivity.
+    destruct (underlying t) as [| | | | | | | | |k e|e| | | | | | |]; try discriminate.
+    + apply andb_true_iff in Ht. destruct Ht as [_ Ht].
+      exact (marshal_list_wf o e items IH Hw Ht Hd l Hl).
+    + apply andb_true_iff in Ht. destruct Ht as [_ Ht].
+      exact (marshal_list_wf o e items IH Hw Ht Hd l Hl).
+  - cbn [marshal_body] in Hb. rewrite has_type_map in Ht. unfold map_kt, map_vt in Hb. cbn [wf_dyn] in Hd.
+    apply bind_ok in Hb. destruct Hb as [ents [Hl Hb]]. inversion Hb.
+    apply map_stream_wf.
+    destruct (underlying t) as [| | | | | | | | | | |kt vt| | | | | |]; try discriminate.
+    apply andb_true_iff in Ht. destruct Ht as [_ Ht].
+    cbn [wf_ty] in Hw. apply andb_true_iff in Hw. destruct Hw as [Hwk Hwv].
+    exact (marshal_entries_wf o kt vt es IH Hwk Hwv Ht Hd ents Hl).
+  - cbn [marshal_body] in Hb. rewrite has_type_struct in Ht. unfold struct_fs in Hb. cbn [wf_dyn] in Hd.
+    apply bind_ok in Hb. destruct Hb as [l [Hl Hb]]. inversion Hb.
+    apply wf_cmps_bracket; try reflexivity.
+    destruct (underlying t) as [| | | | | | | | | | | |fs| | | | |]; try discriminate.
+    cbn [wf_ty] in Hw. apply andb_true_iff in Hw. destruct Hw as [Hwf _].
+    exact (marshal_fields_wf o vals IH fs Hwf Ht Hd l Hl).
+  - inversion Hb. apply wf_cmps_one. reflexivity.
+  - cbn [marshal_body] in Hb. cbn [has_type] in Ht. unfold ptr_ty in Hb. cbn [wf_dyn] in Hd.
+    destruct (underlying t) as [| | | | | | | | | | | | |e| | | |]; try discriminate.
+    exact (IH o e body Hw Ht Hd Hb).
+  - inversion Hb. apply wf_cmps_one. reflexivity.
+  - cbn [marshal_body] in Hb. cbn [has_type] in Ht. cbn [wf_dyn] in Hd.
+    apply andb_true_iff in Hd. destruct Hd as [Hwt' Hd].
+    destruct (underlying t); try discriminate.
+    exact (IH o t' body Hwt' Ht Hd Hb).
+  - cbn [marshal_body] in Hb. destruct (ignore_funcs o); inversion Hb.
+    + apply wf_cmps_one. reflexivity.
+    + constructor; [reflexivity|]. apply wf_cmps_one. reflexivity.
+  - cbn [marshal_body] in Hb. rewrite has_type_func in Ht. unfold func_outs in Hb. cbn [wf_dyn] in Hd.
+    destruct (ignore_funcs o); [inversion Hb; apply wf_cmps_one; reflexivity|].
+    apply bind_ok in Hb. destruct Hb as [l [Hl Hb]]. inversion Hb.
+    apply wf_cmps_bracket; try reflexivity.
+    destruct (underlying t) as [| | | | | | | | | | | | | | |outs| |]; try discriminate.
+    cbn [wf_ty] in Hw.
+    exact (marshal_outs_wf o items IH outs Hw Ht Hd l Hl).
+  - cbn [marshal_body] in Hb. cbn [has_type] in Ht.
+    destruct (underlying t); try discriminate. inversion Hb. apply wf_cmps_one. apply wfc_str.
+    apply andb_true_iff in Ht. apply Ht.
+Qed.
+
+Theorem marshal_tokens_wf o t v ts :
+  wf_ty t = true -> has_type t v = true -> wf_dyn v = true -> marshal o t v = Ok ts ->
+  Forall (fun tk => wf_cmp tk = true) ts.
+Proof. intros Hw Ht Hd Hm. exact (marshal_wfP v o t ts Hw Ht Hd Hm). Qed.
+
+(* the dynamic-type hypothesis is needed: a dynamic type with an ill-formed name *)
+Example marshal_tokens_wf_needs_wf_dyn :
+  let v := GAny (Some (TNamed [300] true [] TBool, GBool true)) in
+  wf_ty TAny = true /\ has_type TAny v = true /\ wf_dyn v = false /\
+  marshal default_opts TAny v = Ok [T KTypeName (VStr [300]); T KBool (VBool true)] /\
+  wf_cmp (T KTypeName (VStr [300])) = false.
+Proof. repeat split. Qed.
+
+Example marshal_tokens_wf_ex :
+  let t := TStruct [([65], true, TSlice TF64); ([66], true, TAny)] in
+  let v := GStruct [GList false [GF64 9221120237041090561; GF64 0]; GAny (Some (TInt W8, GInt (-128)))] in
+  wf_ty t = true /\ has_type t v = true /\ wf_dyn v = true /\
+  marshal default_opts t v =
+    Ok [T KObject VNone; T KString (VStr [65]); T KArray VNone; T KNaN VNone; T KFloat64 (VF64 0);
+        T KArrayEnd VNone; T KString (VStr [66]); T KInt8 (VI W8 (-128)); T KObjectEnd VNone].
+Proof. repeat split. Qed.
+
+(* ------------------------------------------------------------------ *)
+(* 2. a stream is never empty; which values give a single NaN token     *)
+(* ------------------------------------------------------------------ *)
+(* a NaN float, possibly behind pointers and interfaces *)
+Fixpoint nan_like (v : gval) : bool :=
+  match v with
+  | GF32 b => f32_is_nan b
+  | GF64 b => f64_is_nan b
+  | GPtr (Some x) => nan_like x
+  | GAny (Some (_, x)) => nan_like x
+  | _ => false
+  end.
+
+Definition shape (Q : Prop) (ts : list token) : Prop :=
+  exists tk rest, ts = tk :: rest /\ (rest = [] -> kind tk = KNaN -> Q).
+
+Lemma shape_prefix (Q : Prop) t b : shape Q b -> shape Q (reg_prefix t ++ b).
+Proof.
+  intros H. destruct t; try exact H. destruct reg; [|exact H].
+  cbn [reg_prefix app]. exists (T KTypeName (VStr name)), b. split; [reflexivity|].
+  intros E. destruct H as [tk [rest [Hb _]]]. rewrite Hb in E. discriminate.
+Qed.
+
+Lemma shape_one (Q : Prop) k v : (k = KNaN -> Q) -> shape Q [T k v].
+Proof. intros H. exists (T k v), []. split; [reflexivity|]. intros _ Hk. apply H. exact Hk. Qed.
+
+Lemma shape_bracket (Q : Prop) k1 k2 body : shape Q (T k1 VNone :: body ++ [T k2 VNone]).
+Proof.
+  exists (T k1 VNone), (body ++ [T k2 VNone]). split; [reflexivity|].
+  intros E. symmetry in E. apply app_cons_not_nil in E. contradiction.
+Qed.
+
+Ltac kne := let H := fresh "Hk" in intros H; vm_compute in H; discriminate H.
+
+Lemma marshal_shape v : forall o t ts, marshal o t v = Ok ts -> shape (nan_like v = true) ts.
+Proof.
+  induction v as [b|z|n|b|b|s|n s|n items _|n es _|vals _| |x IH| |t' x IH| |items _|enc] using gval_ind2;
+    intros o t ts Hm; apply marshal_inv in Hm; destruct Hm as [body [Hb Hts]]; subst ts;
+    apply shape_prefix; cbn [marshal_body] in Hb.
+  - inversion Hb. apply shape_one. kne.
+  - destruct (underlying t) as [|w| | | | | | | | | | | | | | | |]; try discriminate. inversion Hb.
+    apply shape_one. destruct w; kne.
+  - destruct (underlying t) as [| |w| | | | | | | | | | | | | | |]; try discriminate; inversion Hb; apply shape_one.
+    + destruct w; kne.
+    + kne.
+  - destruct (f32_is_nan b) eqn:En; inversion Hb; apply shape_one.
+    + intros _. exact En.
+    + kne.
+  - destruct (f64_is_nan b) eqn:En; inversion Hb; apply shape_one.
+    + intros _. exact En.
+    + kne.
+  - inversion Hb. apply shape_one. kne.
+  - inversion Hb. apply shape_one. kne.
+  - apply bind_ok in Hb. destruct Hb as [l [_ Hb]]. inversion Hb. apply shape_bracket.
+  - apply bind_ok in Hb. destruct Hb as [l [_ Hb]]. inversion Hb. apply shape_bracket.
+  - apply bind_ok in Hb. destruct Hb as [l [_ Hb]]. inversion Hb. apply shape_bracket.
+  - inversion Hb. apply shape_one. kne.
+  - exact (IH o _ body Hb).
+  - inversion Hb. apply shape_one. kne.
+  - exact (IH o _ body Hb).
+  - destruct (ignore_funcs o); inversion Hb.
+    + apply shape_one. kne.
+    + apply (shape_bracket _ KTuple KTupleEnd []).
+  - destruct (ignore_funcs o).
+    + inversion Hb. apply shape_one. kne.
+    + apply bind_ok in Hb. destruct Hb as [l [_ Hb]]. inversion Hb. apply shape_bracket.
+  - inversion Hb. apply shape_one. kne.
+Qed.
+
+Theorem marshal_nonempty o t v ts : marshal o t v = Ok ts -> ts <> [].
+Proof.
+  intros Hm. destruct (marshal_shape v o t ts Hm) as [tk [rest [E _]]]. rewrite E. discriminate.
+Qed.
+
+(* a key stream is rejected only for a NaN float (behind pointers / interfaces) *)
+Theorem bad_key_nan_like o t v ts : marshal o t v = Ok ts -> bad_map_key ts = true -> nan_like v = true.
+Proof.
+  intros Hm Hbad. destruct (marshal_shape v o t ts Hm) as [tk [rest [E H]]]. subst ts.
+  destruct rest as [|tk2 rest]; [|discriminate]. cbn [bad_map_key] in Hbad.
+  apply H; [reflexivity|]. apply N.eqb_eq. exact Hbad.
+Qed.
+
+Example marshal_nonempty_ex :
+  marshal default_opts (TStruct []) (GStruct []) = Ok [T KObject VNone; T KObjectEnd VNone].
+Proof. reflexivity. Qed.
+
+(* ------------------------------------------------------------------ *)
+(* 3. totality on the typed domain                                     *)
+(* ------------------------------------------------------------------ *)
+(* no map key anywhere in the value is a NaN float (behind pointers / interfaces) *)
+Fixpoint no_bad_keys (v : gval) : bool :=
+  match v with
+  | GList _ items => forallb no_bad_keys items
+  | GStruct vals => forallb no_bad_keys vals
+  | GMap _ es => forallb (fun e => negb (nan_like (fst e)) && no_bad_keys (fst e) && no_bad_keys (snd e)) es
+  | GPtr (Some x) => no_bad_keys x
+  | GAny (Some (_, x)) => no_bad_keys x
+  | GFunc (Some items) => forallb no_bad_keys items
+  | _ => true
+  end.
+
+(* the result is Ok, or the bad-map-key error and then nb = false *)
+Definition okb {A} (nb : bool) (r : res A) : Prop :=
+  match r with Ok _ => True | Err e => e = EBadMapKey /\ nb = false | OutOfFuel => False end.
+
+Lemma okb_bind {A B} nb (r : res A) (k : A -> res B) :
+  okb nb r -> (forall a, r = Ok a -> okb nb (k a)) -> okb nb (bind r k).
+Proof. destruct r as [a|e|]; cbn [bind okb]; intros H Hk; [apply Hk; reflexivity | exact H | exact H]. Qed.
+
+Lemma okb_weak {A} nb1 nb (r : res A) : okb nb1 r -> (nb1 = false -> nb = false) -> okb nb r.
+Proof.
+  destruct r as [a|e|]; cbn [okb]; intros H Hw; [exact I | | exact H].
+  destruct H as [He Hn]. split; [exact He | apply Hw; exact Hn].
+Qed.
+
+Definition totP (v : gval) : Prop :=
+  forall o t, has_type t v = true -> okb (no_bad_keys v) (marshal o t v).
+
+Lemma marshal_list_tot o e items : Forall totP items -> typed_list e items = true ->
+  okb (forallb no_bad_keys items) (marshal_list o e items).
+Proof.
+  intros HP. induction HP as [|x r Hx Hr IH]; intros Ht; [exact I|].
+  cbn [typed_list] in Ht. apply andb_true_iff in Ht. destruct Ht as [Htx Htr].
+  rewrite marshal_list_cons. cbn [forallb]. apply okb_bind.
+  - apply (okb_weak (no_bad_keys x)); [exact (Hx o e Htx)|]. intros E. rewrite E. reflexivity.
+  - intros a _. apply okb_bind; [|intros b _; exact I].
+    apply (okb_weak (forallb no_bad_keys r)); [exact (IH Htr)|]. intros E. rewrite E. apply andb_false_r.
+Qed.
+
+Definition entry_ok (e : gval * gval) : bool :=
+  negb (nan_like (fst e)) && no_bad_keys (fst e) && no_bad_keys (snd e).
+
+Lemma marshal_entries_tot o kt vt es : Forall (fun e => totP (fst e) /\ totP (snd e)) es ->
+  typed_entries kt vt es = true ->
+  okb (forallb entry_ok es) (marshal_entries o kt vt es).
+Proof.
+  intros HP. induction HP as [|[k x] r [Hpk Hpx] Hr IH]; intros Ht; [exact I|].
+  cbn [fst snd] in Hpk, Hpx.
+  cbn [typed_entries] in Ht. apply andb_true_iff in Ht. destruct Ht as [Ht Htr].
+  apply andb_true_iff in Ht. destruct Ht as [Htk Htx].
+  rewrite marshal_entries_cons. cbn [forallb]. unfold entry_ok at 1. cbn [fst snd].
+  apply okb_bind.
+  - apply (okb_weak (no_bad_keys k)); [exact (Hpk default_opts kt Htk)|]. intros E. rewrite E.
+    rewrite andb_false_r. reflexivity.
+  - intros sk Hsk. destruct (bad_map_key sk) eqn:Ebad.
+    + cbn [okb]. split; [reflexivity|].
+      rewrite (bad_key_nan_like default_opts kt k sk Hsk Ebad). reflexivity.
+    + apply okb_bind.
+      * apply (okb_weak (forallb entry_ok r)); [exact (IH Htr)|]. intros E. rewrite E. apply andb_false_r.
+      * intros rest _. apply okb_bind.
+        { apply (okb_weak (no_bad_keys k)); [exact (Hpk o kt Htk)|]. intros E. rewrite E.
+          rewrite andb_false_r. reflexivity. }
+        intros kts _. apply okb_bind; [|intros vts _; exact I].
+        apply (okb_weak (no_bad_keys x)); [exact (Hpx o vt Htx)|]. intros E. rewrite E.
+        rewrite andb_false_r. reflexivity.
+Qed.
+
+Lemma marshal_fields_tot o vals : Forall totP vals -> forall fs, typed_fields vals fs = true ->
+  okb (forallb no_bad_keys vals) (marshal_fields o vals fs).
+Proof.
+  intros HP. induction HP as [|x r Hx Hr IH]; intros [|fd fr] Ht; try exact I; try discriminate.
+  cbn [typed_fields] in Ht. apply andb_true_iff in Ht. destruct Ht as [Htx Htr].
+  assert (Hrest : okb (no_bad_keys x && forallb no_bad_keys r) (marshal_fields o r fr)).
+  { apply (okb_weak (forallb no_bad_keys r)); [exact (IH fr Htr)|]. intros E. rewrite E. apply andb_false_r. }
+  rewrite marshal_fields_cons. cbn [forallb].
+  destruct (skip_empty o && _); [exact Hrest|].
+  destruct (negb (fexported fd)); [exact Hrest|].
+  apply okb_bind.
+  - apply (okb_weak (no_bad_keys x)); [exact (Hx o (snd fd) Htx)|]. intros E. rewrite E. reflexivity.
+  - intros a _. apply okb_bind; [exact Hrest | intros b _; exact I].
+Qed.
+
+Lemma marshal_outs_tot o items : Forall totP items -> forall outs, typed_outs items outs = true ->
+  okb (forallb no_bad_keys items) (marshal_outs o items outs).
+Proof.
+  intros HP. induction HP as [|x r Hx Hr IH]; intros [|xt tr] Ht; try exact I; try discriminate.
+  cbn [typed_outs] in Ht. apply andb_true_iff in Ht. destruct Ht as [Htx Htr].
+  rewrite marshal_outs_cons. cbn [forallb]. apply okb_bind.
+  - apply (okb_weak (no_bad_keys x)); [exact (Hx o xt Htx)|]. intros E. rewrite E. reflexivity.
+  - intros a _. apply okb_bind; [|intros b _; exact I].
+    apply (okb_weak (forallb no_bad_keys r)); [exact (IH tr Htr)|]. intros E. rewrite E. apply andb_false_r.
+Qed.
+
+Lemma marshal_totP v : totP v.
+Proof.
+  induction v as [b|z|n|b|b|s|n s|n items IH|n es IH|vals IH| |x IH| |t' x IH| |items IH|enc] using gval_ind2;
+    intros o t Ht; rewrite marshal_eq; (apply okb_bind; [|intros a _; exact I]); cbn [marshal_body].
+  - exact I.
+  - cbn [has_type] in Ht. destruct (underlying t); try discriminate. exact I.
+  - cbn [has_type] in Ht. destruct (underlying t); try discriminate; exact I.
+  - destruct (f32_is_nan b); exact I.
+  - destruct (f64_is_nan b); exact I.
+  - exact I.
+  - exact I.
+  - rewrite has_type_list in Ht. unfold elem_ty. cbn [no_bad_keys].
+    apply okb_bind; [|intros a _; exact I].
+    destruct (underlying t) as [| | | | | | | | |k e|e| | | | | | |]; try discriminate;
+      apply andb_true_iff in Ht; destruct Ht as [_ Ht]; exact (marshal_list_tot o e items IH Ht).
+  - rewrite has_type_map in Ht. unfold map_kt, map_vt. cbn [no_bad_keys].
+    apply okb_bind; [|intros a _; exact I].
+    destruct (underlying t) as [| | | | | | | | | | |kt vt| | | | | |]; try discriminate.
+    apply andb_true_iff in Ht. destruct Ht as [_ Ht]. exact (marshal_entries_tot o kt vt es IH Ht).
+  - rewrite has_type_struct in Ht. unfold struct_fs. cbn [no_bad_keys].
+    apply okb_bind; [|intros a _; exact I].
+    destruct (underlying t) as [| | | | | | | | | | | |fs| | | | |]; try discriminate.
+    exact (marshal_fields_tot o vals IH fs Ht).
+  - exact I.
+  - cbn [has_type] in Ht. unfold ptr_ty. cbn [no_bad_keys].
+    destruct (underlying t) as [| | | | | | | | | | | | |e| | | |]; try discriminate.
+    exact (IH o e Ht).
+  - exact I.
+  - cbn [has_type] in Ht. cbn [no_bad_keys]. destruct (underlying t); try discriminate. exact (IH o t' Ht).
+  - destruct (ignore_funcs o); exact I.
+  - rewrite has_type_func in Ht. unfold func_outs. cbn [no_bad_keys].
+    destruct (ignore_funcs o); [exact I|].
+    apply okb_bind; [|intros a _; exact I].
+    destruct (underlying t) as [| | | | | | | | | | | | | | |outs| |]; try discriminate.
+    exact (marshal_outs_tot o items IH outs Ht).
+  - exact I.
+Qed.
+
+(* on typed values the marshaller never runs out of fuel and fails only with BadMapKey *)
+Theorem marshal_ok_or_bad_key o t v : has_type t v = true ->
+  (exists ts, marshal o t v = Ok ts) \/ (marshal o t v = Err EBadMapKey /\ no_bad_keys v = false).
+Proof.
+  intros Ht. pose proof (marshal_totP v o t Ht) as H.
+  destruct (marshal o t v) as [ts|e|]; cbn [okb] in H.
+  - left. exists ts. reflexivity.
+  - right. destruct H as [He Hn]. subst e. split; [reflexivity | exact Hn].
+  - contradiction.
+Qed.
+
+Theorem marshal_total_strong o t v :
+  has_type t v = true -> no_bad_keys v = true -> exists ts, marshal o t v = Ok ts.
+Proof.
+  intros Ht Hn. destruct (marshal_ok_or_bad_key o t v Ht) as [H|[_ H]]; [exact H|].
+  rewrite Hn in H. discriminate.
+Qed.
+
+Theorem marshal_total o t v :
+  wf_ty t = true -> has_type t v = true -> wf_dyn v = true -> no_bad_keys v = true ->
+  exists ts, marshal o t v = Ok ts.
+Proof. intros _ Ht _ Hn. exact (marshal_total_strong o t v Ht Hn). Qed.
+
+Example marshal_total_ex :
+  let t := TMap TF64 (TSlice TAny) in
+  let v := GMap false [(GF64 0, GList true []); (GF64 4607182418800017408, GList false [GAny None])] in
+  wf_ty t = true /\ has_type t v = true /\ wf_dyn v = true /\ no_bad_keys v = true /\
+  marshal default_opts t v =
+    Ok [T KMap VNone; T KFloat64 (VF64 0); T KArray VNone; T KArrayEnd VNone;
+        T KFloat64 (VF64 4607182418800017408); T KArray VNone; T KNil VNone; T KArrayEnd VNone;
+        T KMapEnd VNone].
+Proof. repeat split. Qed.
+
+(* no_bad_keys is sufficient, not necessary: a NaN key of a REGISTERED float type marshals to
+   two tokens (TypeName, NaN) and is accepted by the model *)
+Example no_bad_keys_not_necessary :
+  let kt := TNamed [75] true [] TF64 in
+  let v := GMap false [(GF64 9221120237041090561, GBool true)] in
+  has_type (TMap kt TBool) v = true /\ no_bad_keys v = false /\
+  marshal default_opts (TMap kt TBool) v =
+    Ok [T KMap VNone; T KTypeName (VStr [75]); T KNaN VNone; T KBool (VBool true); T KMapEnd VNone].
+Proof. repeat split. Qed.
+
+(* ------------------------------------------------------------------ *)
+(* 6. map entries come out sorted by key stream                        *)
+(* ------------------------------------------------------------------ *)
+Definition sk (e : entry) : list token := fst (fst e).
+Definition ent_le (a b : entry) : Prop := lex (sk a) (sk b) <> Gt.
+Definition ent_lt (a b : entry) : Prop := lex (sk a) (sk b) = Lt.
+Definition ent_ne (a b : entry) : Prop := lex (sk a) (sk b) <> Eq.
+Definition wf_sk (e : entry) : Prop := wf_cmps (sk e).
+
+Lemma key_le_true a b : wf_sk a -> wf_sk b -> key_le a b = true -> ent_le a b.
+Proof.
+  unfold key_le, ent_le, wf_sk, sk. intros Ha Hb. rewrite (cmp_is_lex _ _ Ha Hb).
+  destruct (lex (fst (fst a)) (fst (fst b))); intros H; discriminate.
+Qed.
+
+Lemma key_le_false a b : wf_sk a -> wf_sk b -> key_le a b = false -> ent_lt b a.
+Proof.
+  unfold key_le, ent_lt, wf_sk, sk. intros Ha Hb. rewrite (cmp_is_lex _ _ Ha Hb).
+  rewrite (lex_antisym (fst (fst a)) (fst (fst b))).
+  destruct (lex (fst (fst a)) (fst (fst b))); intros H; try discriminate. reflexivity.
+Qed.
+
+Lemma ent_le_trans a b c : wf_sk a -> wf_sk b -> wf_sk c -> ent_le a b -> ent_le b c -> ent_le a c.
+Proof. unfold ent_le, wf_sk. intros Ha Hb Hc. apply lex_trans; assumption. Qed.
+
+Lemma insert_entry_sorted e l : wf_sk e -> Forall wf_sk l ->
+  StronglySorted ent_le l -> StronglySorted ent_le (insert_entry e l).
+Proof.
+  intros He. induction l as [|x r IH]; intros Hw Hs.
+  - constructor; constructor.
+  - apply StronglySorted_inv in Hs. destruct Hs as [Hsr Hxr].
+    inversion Hw as [|? ? Hx Hr]; subst.
+    cbn [insert_entry]. destruct (key_le e x) eqn:E.
+    + pose proof (key_le_true e x He Hx E) as Hex.
+      constructor; [constructor; assumption|]. constructor; [exact Hex|].
+      rewrite Forall_forall in *. intros y Hy.
+      apply (ent_le_trans e x y He Hx (Hr y Hy) Hex (Hxr y Hy)).
+    + pose proof (key_le_false e x He Hx E) as Hxe.
+      constructor; [exact (IH Hr Hsr)|].
+      apply (Permutation_Forall (Permutation_sym (insert_entry_perm e r))).
+      constructor; [|exact Hxr]. unfold ent_le. unfold ent_lt in Hxe. rewrite Hxe. discriminate.
+Qed.
+
+Lemma sort_entries_sorted l : Forall wf_sk l -> StronglySorted ent_le (sort_entries l).
+Proof.
+  induction l as [|e r IH]; intros Hw; [constructor|].
+  inversion Hw as [|? ? He Hr]; subst.
+  unfold sort_entries. cbn [fold_right]. fold (sort_entries r).
+  apply insert_entry_sorted; [exact He | | exact (IH Hr)].
+  exact (Permutation_Forall (Permutation_sym (sort_entries_perm r)) Hr).
+Qed.
+
+Lemma FOP_perm {A} (R : A -> A -> Prop) : (forall a b, R a b -> R b a) ->
+  forall l l', Permutation l l' -> ForallOrdPairs R l -> ForallOrdPairs R l'.
+Proof.
+  intros Hsym l l' Hp. induction Hp as [|x l l' Hp IH|x y l|l l' l'' Hp1 IH1 Hp2 IH2]; intros H.
+  - exact H.
+  - inversion H as [|? ? Hx Hl]; subst. constructor; [exact (Permutation_Forall Hp Hx) | exact (IH Hl)].
+  - inversion H as [|? ? Hy Hxl]; subst. inversion Hxl as [|? ? Hx Hl]; subst.
+    inversion Hy as [|? ? Hyx Hyl]; subst.
+    constructor; [constructor; [apply Hsym; exact Hyx | exact Hx] | constructor; assumption].
+  - exact (IH2 (IH1 H)).
+Qed.
+
+Lemma ent_ne_sym a b : ent_ne a b -> ent_ne b a.
+Proof.
+  unfold ent_ne. intros H E. apply H. rewrite (lex_antisym (sk b) (sk a)), E. reflexivity.
+Qed.
+
+Lemma sorted_strict l : StronglySorted ent_le l -> ForallOrdPairs ent_ne l -> StronglySorted ent_lt l.
+Proof.
+  induction l as [|a l IH]; intros Hs Hd; [constructor|].
+  apply StronglySorted_inv in Hs. destruct Hs as [Hsl Hal].
+  inversion Hd as [|? ? Hna Hdl]; subst.
+  constructor; [exact (IH Hsl Hdl)|].
+  rewrite Forall_forall in *. intros y Hy. specialize (Hal y Hy). specialize (Hna y Hy).
+  unfold ent_le, ent_ne, ent_lt in *. destruct (lex (sk a) (sk y)); [contradiction | reflexivity | contradiction].
+Qed.
+
+(* the entry triples of a map, in iteration order *)
+Definition entry_rel (o : copts) (kt vt : ty) (p : gval * gval) (e : entry) : Prop :=
+  marshal default_opts kt (fst p) = Ok (fst (fst e)) /\
+  marshal o kt (fst p) = Ok (snd (fst e)) /\
+  marshal o vt (snd p) = Ok (snd e).
+
+Lemma marshal_entries_rel o kt vt m : forall es,
+  marshal_entries o kt vt m = Ok es -> Forall2 (entry_rel o kt vt) m es.
+Proof.
+  induction m as [|[k x] r IH]; intros es H.
+  - inversion H. constructor.
+  - rewrite marshal_entries_cons in H.
+    apply bind_ok in H. destruct H as [s [Hs H]].
+    destruct (bad_map_key s); [discriminate|].
+    apply bind_ok in H. destruct H as [rest [Hrest H]].
+    apply bind_ok in H. destruct H as [kts [Hkts H]].
+    apply bind_ok in H. destruct H as [vts [Hvts H]]. inversion H; subst.
+    constructor; [|exact (IH rest Hrest)].
+    unfold entry_rel. cbn [fst snd]. repeat split; assumption.
+Qed.
+
+(* the key streams (under the default options, as used for sorting) of the entries at two
+   different positions never compare Eq *)
+Definition keys_distinct (kt : ty) (m : list (gval * gval)) : Prop :=
+  ForallOrdPairs (fun p q => forall s1 s2,
+                    marshal default_opts kt (fst p) = Ok s1 ->
+                    marshal default_opts kt (fst q) = Ok s2 -> lex s1 s2 <> Eq) m.
+
+Lemma FOP_Forall2 {A B} (R : A -> B -> Prop) (P : A -> A -> Prop) (Q : B -> B -> Prop) :
+  (forall a b a' b', R a a' -> R b b' -> P a b -> Q a' b') ->
+  forall l l', Forall2 R l l' -> ForallOrdPairs P l -> ForallOrdPairs Q l'.
+Proof.
+  intros HPQ l l' H2. induction H2 as [|a a' l l' Ha Hl IH]; intros H; [constructor|].
+  inversion H as [|? ? Hal Hfl]; subst. constructor; [|exact (IH Hfl)].
+  clear IH Hfl H. induction Hl as [|b b' l l' Hb Hl IH]; [constructor|].
+  inversion Hal as [|? ? Hab Hal']; subst.
+  constructor; [exact (HPQ a b a' b' Ha Hb Hab) | exact (IH Hal')].
+Qed.
+
+Lemma keys_distinct_entries o kt vt m es :
+  Forall2 (entry_rel o kt vt) m es -> keys_distinct kt m -> ForallOrdPairs ent_ne es.
+Proof.
+  intros H2 Hd. apply (FOP_Forall2 _ _ ent_ne) with (2 := H2) (3 := Hd).
+  intros p q e f [Hp _] [Hq _] H. unfold ent_ne, sk. exact (H _ _ Hp Hq).
+Qed.
+
+Lemma entries_wf_sk o kt vt m es : wf_ty kt = true ->
+  Forall (fun p => has_type kt (fst p) = true) m -> Forall (fun p => wf_dyn (fst p) = true) m ->
+  Forall2 (entry_rel o kt vt) m es -> Forall wf_sk es.
+Proof.
+  intros Hk Ht Hd H2. induction H2 as [|p e m es [Hp _] Hr IH]; [constructor|].
+  inversion Ht as [|? ? Htp Htr]; subst. inversion Hd as [|? ? Hdp Hdr]; subst.
+  constructor; [|exact (IH Htr Hdr)].
+  exact (marshal_tokens_wf default_opts kt (fst p) (fst (fst e)) Hk Htp Hdp Hp).
+Qed.
+
+Lemma typed_entries_keys kt vt m : typed_entries kt vt m = true ->
+  Forall (fun p => has_type kt (fst p) = true) m.
+Proof.
+  intros H. apply typed_entries_Forall in H. rewrite Forall_forall in *. intros p Hp. apply (H p Hp).
+Qed.
+
+Lemma wf_dyn_keys m : forallb (fun e => wf_dyn (fst e) && wf_dyn (snd e)) m = true ->
+  Forall (fun p => wf_dyn (fst p) = true) m.
+Proof.
+  intros H. rewrite forallb_forall in H. rewrite Forall_forall. intros p Hp.
+  specialize (H p Hp). apply andb_true_iff in H. apply H.
+Qed.
+
+(* general form: any map type (possibly named / registered) *)
+Theorem map_sorted_gen o t kt vt isnil entries ts :
+  underlying t = TMap kt vt ->
+  wf_ty t = true -> has_type t (GMap isnil entries) = true -> wf_dyn (GMap isnil entries) = true ->
+  marshal o t (GMap isnil entries) = Ok ts ->
+  exists es0 es : list entry,
+    Forall2 (entry_rel o kt vt) entries es0 /\ Permutation es0 es /\
+    ts = reg_prefix t ++ T KMap VNone :: flat_map (fun e => snd (fst e) ++ snd e) es ++ [T KMapEnd VNone] /\
+    StronglySorted (fun a b => lex (fst (fst a)) (fst (fst b)) <> Gt) es /\
+    (keys_distinct kt entries -> StronglySorted (fun a b => lex (fst (fst a)) (fst (fst b)) = Lt) es).
+Proof.
+  intros Hu Hw Ht Hd Hm.
+  apply marshal_inv in Hm. destruct Hm as [body [Hb Hts]]. cbn [marshal_body] in Hb.
+  unfold map_kt, map_vt in Hb. rewrite Hu in Hb.
+  apply bind_ok in Hb. destruct Hb as [es0 [He Hb]]. inversion Hb as [Hbody]. clear Hb.
+  pose proof (marshal_entries_rel o kt vt entries es0 He) as Hrel.
+  apply wf_ty_underlying in Hw. rewrite Hu in Hw. cbn [wf_ty] in Hw.
+  apply andb_true_iff in Hw. destruct Hw as [Hwk Hwv].
+  rewrite has_type_map, Hu in Ht. apply andb_true_iff in Ht. destruct Ht as [_ Ht].
+  cbn [wf_dyn] in Hd.
+  pose proof (entries_wf_sk o kt vt entries es0 Hwk (typed_entries_keys kt vt entries Ht)
+                (wf_dyn_keys entries Hd) Hrel) as Hwf.
+  exists es0, (sort_entries es0). split; [exact Hrel|].
+  split; [apply Permutation_sym; apply sort_entries_perm|].
+  split; [rewrite Hts, <- Hbody; reflexivity|].
+  split; [exact (sort_entries_sorted es0 Hwf)|].
+  intros Hdist. apply sorted_strict; [exact (sort_entries_sorted es0 Hwf)|].
+  apply (FOP_perm ent_ne ent_ne_sym es0); [apply Permutation_sym; apply sort_entries_perm|].
+  exact (keys_distinct_entries o kt vt entries es0 Hrel Hdist).
+Qed.
+
+Theorem map_sorted o kt vt isnil entries ts :
+  wf_ty (TMap kt vt) = true -> has_type (TMap kt vt) (GMap isnil entries) = true ->
+  wf_dyn (GMap isnil entries) = true ->
+  marshal o (TMap kt vt) (GMap isnil entries) = Ok ts ->
+  exists es0 es : list entry,
+    Forall2 (entry_rel o kt vt) entries es0 /\ Permutation es0 es /\
+    ts = T KMap VNone :: flat_map (fun e => snd (fst e) ++ snd e) es ++ [T KMapEnd VNone] /\
+    StronglySorted (fun a b => lex (fst (fst a)) (fst (fst b)) <> Gt) es /\
+    (keys_distinct kt entries -> StronglySorted (fun a b => lex (fst (fst a)) (fst (fst b)) = Lt) es).
+Proof.
+  intros Hw Ht Hd Hm. exact (map_sorted_gen o (TMap kt vt) kt vt isnil entries ts eq_refl Hw Ht Hd Hm).
+Qed.
+
+Example map_sorted_ex :
+  let m := [(GInt 7, GStr [112]); (GInt (-5), GStr [110]); (GInt 0, GStr [122])] in
+  marshal default_opts (TMap (TInt WNat) TString) (GMap false m) =
+    Ok [T KMap VNone;
+        T KInt (VI WNat (-5)); T KString (VStr [110]);
+        T KInt (VI WNat 0); T KString (VStr [122]);
+        T KInt (VI WNat 7); T KString (VStr [112]);
+        T KMapEnd VNone].
+Proof. reflexivity. Qed.
+
+(* ------------------------------------------------------------------ *)
+(* 7. independence of the iteration / insertion order                  *)
+(* ------------------------------------------------------------------ *)
+(* two strictly sorted permutations of one another are equal *)
+Lemma sorted_perm_eq {A} (R : A -> A -> Prop) : (forall a b, R a b -> R b a -> False) ->
+  forall l1 l2, StronglySorted R l1 -> StronglySorted R l2 -> Permutation l1 l2 -> l1 = l2.
+Proof.
+  intros Hasym. induction l1 as [|a l1 IH]; intros l2 H1 H2 Hp.
+  - apply Permutation_nil in Hp. subst. reflexivity.
+  - destruct l2 as [|b l2].
+    + apply Permutation_sym, Permutation_nil in Hp. discriminate.
+    + apply StronglySorted_inv in H1. destruct H1 as [Hs1 Ha].
+      apply StronglySorted_inv in H2. destruct H2 as [Hs2 Hb].
+      rewrite Forall_forall in Ha, Hb.
+      assert (E : a = b).
+      { assert (Hin : In a (b :: l2)) by (apply (Permutation_in a Hp); left; reflexivity).
+        destruct Hin as [E|Hin]; [symmetry; exact E|].
+        assert (Hin' : In b (a :: l1)) by (apply (Permutation_in b (Permutation_sym Hp)); left; reflexivity).
+        destruct Hin' as [E|Hin']; [exact E|].
+        exfalso. exact (Hasym a b (Ha b Hin') (Hb a Hin)). }
+      subst b. f_equal. apply IH; [exact Hs1 | exact Hs2 |].
+      exact (Permutation_cons_inv Hp).
+Qed.
+
+Lemma ent_lt_asym a b : ent_lt a b -> ent_lt b a -> False.
+Proof.
+  unfold ent_lt. intros H1 H2. rewrite (lex_antisym (sk a) (sk b)), H1 in H2. discriminate.
+Qed.
+
+Lemma sort_entries_perm_eq es1 es2 : Forall wf_sk es1 -> ForallOrdPairs ent_ne es1 ->
+  Permutation es1 es2 -> sort_entries es1 = sort_entries es2.
+Proof.
+  intros Hw Hd Hp.
+  assert (Hw2 : Forall wf_sk es2) by exact (Permutation_Forall Hp Hw).
+  assert (Hd2 : ForallOrdPairs ent_ne es2) by exact (FOP_perm ent_ne ent_ne_sym es1 es2 Hp Hd).
+  apply (sorted_perm_eq ent_lt ent_lt_asym).
+  - apply sorted_strict; [exact (sort_entries_sorted es1 Hw)|].
+    exact (FOP_perm ent_ne ent_ne_sym es1 _ (Permutation_sym (sort_entries_perm es1)) Hd).
+  - apply sorted_strict; [exact (sort_entries_sorted es2 Hw2)|].
+    exact (FOP_perm ent_ne ent_ne_sym es2 _ (Permutation_sym (sort_entries_perm es2)) Hd2).
+  - apply perm_trans with es1; [apply sort_entries_perm|].
+    apply perm_trans with es2; [exact Hp | apply Permutation_sym; apply sort_entries_perm].
+Qed.
+
+(* one entry on its own, and the sequencing of the entries with every failure collapsed:
+   on typed values every failure is BadMapKey, so nothing is lost *)
+Definition entry_of (o : copts) (kt vt : ty) (p : gval * gval) : res entry :=
+  bind (marshal default_opts kt (fst p)) (fun s =>
+  if bad_map_key s then Err EBadMapKey else
+  bind (marshal o kt (fst p)) (fun kts =>
+  bind (marshal o vt (snd p)) (fun vts => Ok (s, kts, vts)))).
+
+Fixpoint seqo (l : list (res entry)) : option (list entry) :=
+  match l with
+  | [] => Some []
+  | r :: rest => match r, seqo rest with
+                 | Ok e, Some es => Some (e :: es)
+                 | _, _ => None
+                 end
+  end.
+
+Definition typed_entry (kt vt : ty) (p : gval * gval) : Prop :=
+  has_type kt (fst p) = true /\ has_type vt (snd p) = true.
+
+Lemma entries_seqo o kt vt m : Forall (typed_entry kt vt) m ->
+  marshal_entries o kt vt m =
+  match seqo (map (entry_of o kt vt) m) with Some es => Ok es | None => Err EBadMapKey end.
+Proof.
+  intros Ht. induction Ht as [|[k x] r [Htk Htx] Hr IH]; [reflexivity|].
+  cbn [fst snd] in Htk, Htx.
+  rewrite marshal_entries_cons. cbn [map seqo]. unfold entry_of at 1. cbn [fst snd]. rewrite IH.
+  destruct (marshal_ok_or_bad_key default_opts kt k Htk) as [[s Hs]|[Hs _]]; rewrite Hs; cbn [bind];
+    [|reflexivity].
+  destruct (bad_map_key s); [reflexivity|].
+  destruct (marshal_ok_or_bad_key o kt k Htk) as [[kts Hkts]|[Hkts _]]; rewrite Hkts; cbn [bind].
+  - destruct (marshal_ok_or_bad_key o vt x Htx) as [[vts Hvts]|[Hvts _]]; rewrite Hvts; cbn [bind].
+    + destruct (seqo (map (entry_of o kt vt) r)); reflexivity.
+    + destruct (seqo (map (entry_of o kt vt) r)); reflexivity.
+  - destruct (seqo (map (entry_of o kt vt) r)); reflexivity.
+Qed.
+
+Definition opt_perm (a b : option (list entry)) : Prop :=
+  match a, b with
+  | Some x, Some y => Permutation x y
+  | None, None => True
+  | _, _ => False
+  end.
+
+Lemma seqo_perm l1 l2 : Permutation l1 l2 -> opt_perm (seqo l1) (seqo l2).
+Proof.
+  intros Hp. induction Hp as [|x l l' Hp IH|x y l|l l' l'' Hp1 IH1 Hp2 IH2].
+  - apply Permutation_refl.
+  - cbn [seqo]. destruct x as [e|e|]; destruct (seqo l), (seqo l'); cbn [opt_perm] in *;
+      try exact I; try contradiction. apply perm_skip. exact IH.
+  - cbn [seqo]. destruct x as [e|e|]; destruct y as [f|f|]; destruct (seqo l); cbn [opt_perm];
+      try exact I. apply perm_swap.
+  - destruct (seqo l), (seqo l'), (seqo l''); cbn [opt_perm] in *; try exact I; try contradiction.
+    exact (perm_trans IH1 IH2).
+Qed.
+
+Theorem marshal_map_perm_gen o t kt vt n1 n2 m1 m2 :
+  underlying t = TMap kt vt -> Permutation m1 m2 ->
+  wf_ty t = true -> has_type t (GMap n1 m1) = true -> wf_dyn (GMap n1 m1) = true ->
+  keys_distinct kt m1 ->
+  marshal o t (GMap n1 m1) = marshal o t (GMap n2 m2).
+Proof.
+  intros Hu Hp Hw Ht Hd Hdist.
+  apply wf_ty_underlying in Hw. rewrite Hu in Hw. cbn [wf_ty] in Hw.
+  apply andb_true_iff in Hw. destruct Hw as [Hwk Hwv].
+  rewrite has_type_map, Hu in Ht. apply andb_true_iff in Ht. destruct Ht as [_ Ht].
+  cbn [wf_dyn] in Hd.
+  assert (Ht1 : Forall (typed_entry kt vt) m1) by exact (typed_entries_Forall kt vt m1 Ht).
+  assert (Ht2 : Forall (typed_entry kt vt) m2) by exact (Permutation_Forall Hp Ht1).
+  rewrite !marshal_eq. cbn [marshal_body]. unfold map_kt, map_vt. rewrite Hu. f_equal.
+  pose proof (entries_seqo o kt vt m1 Ht1) as E1.
+  pose proof (entries_seqo o kt vt m2 Ht2) as E2.
+  pose proof (seqo_perm _ _ (Permutation_map (entry_of o kt vt) Hp)) as Hperm.
+  destruct (seqo (map (entry_of o kt vt) m1)) as [es1|];
+    destruct (seqo (map (entry_of o kt vt) m2)) as [es2|]; cbn [opt_perm] in Hperm; try contradiction.
+  - rewrite E1, E2. cbn [bind]. unfold map_stream. f_equal. f_equal. f_equal. f_equal.
+    pose proof (marshal_entries_rel o kt vt m1 es1 E1) as Hrel.
+    apply sort_entries_perm_eq; [| |exact Hperm].
+    + exact (entries_wf_sk o kt vt m1 es1 Hwk (typed_entries_keys kt vt m1 Ht) (wf_dyn_keys m1 Hd) Hrel).
+    + exact (keys_distinct_entries o kt vt m1 es1 Hrel Hdist).
+  - rewrite E1, E2. reflexivity.
+Qed.
+
+Theorem marshal_map_perm o kt vt n1 n2 m1 m2 :
+  Permutation m1 m2 ->
+  wf_ty (TMap kt vt) = true -> has_type (TMap kt vt) (GMap n1 m1) = true -> wf_dyn (GMap n1 m1) = true ->
+  keys_distinct kt m1 ->
+  marshal o (TMap kt vt) (GMap n1 m1) = marshal o (TMap kt vt) (GMap n2 m2).
+Proof.
+  intros Hp Hw Ht Hd Hdist.
+  exact (marshal_map_perm_gen o (TMap kt vt) kt vt n1 n2 m1 m2 eq_refl Hp Hw Ht Hd Hdist).
+Qed.
+
+Example marshal_map_perm_ex :
+  let m1 := [(GInt 7, GStr [112]); (GInt (-5), GStr [110]); (GInt 0, GStr [122])] in
+  let m2 := [(GInt 0, GStr [122]); (GInt 7, GStr [112]); (GInt (-5), GStr [110])] in
+  Permutation m1 m2 /\
+  wf_ty (TMap (TInt WNat) TString) = true /\ has_type (TMap (TInt WNat) TString) (GMap false m1) = true /\
+  wf_dyn (GMap false m1) = true /\ keys_distinct (TInt WNat) m1 /\
+  marshal default_opts (TMap (TInt WNat) TString) (GMap false m1) =
+  marshal default_opts (TMap (TInt WNat) TString) (GMap false m2).
+Proof.
+  cbv zeta. split; [|split; [reflexivity|split; [reflexivity|split; [reflexivity|split; [|reflexivity]]]]].
+  - apply perm_trans with [(GInt 7, GStr [112]); (GInt 0, GStr [122]); (GInt (-5), GStr [110])].
+    + apply perm_skip. apply perm_swap.
+    + apply perm_swap.
+  - unfold keys_distinct. repeat constructor; cbn [fst]; intros s1 s2 H1 H2;
+      inversion H1; inversion H2; discriminate.
+Qed.
+
+(* without distinct key streams the order does matter: +0 and -0 are different keys of a Go
+   map with equal (Eq) key streams, and insertion sort keeps them in iteration order *)
+Example marshal_map_perm_needs_distinct :
+  let m1 := [(GF64 0, GBool true); (GF64 9223372036854775808, GBool false)] in
+  let m2 := [(GF64 9223372036854775808, GBool false); (GF64 0, GBool true)] in
+  Permutation m1 m2 /\ has_type (TMap TF64 TBool) (GMap false m1) = true /\
+  marshal default_opts (TMap TF64 TBool) (GMap false m1) <>
+  marshal default_opts (TMap TF64 TBool) (GMap false m2).
+Proof. cbv zeta. split; [apply perm_swap|]. split; [reflexivity|]. vm_compute. discriminate. Qed.
+
+(* ------------------------------------------------------------------ *)
+(* 8. a NaN key is rejected                                            *)
+(* ------------------------------------------------------------------ *)
+Theorem bad_key_rejected o kt vt isnil k x rest :
+  marshal default_opts kt k = Ok [T KNaN VNone] ->
+  marshal o (TMap kt vt) (GMap isnil ((k, x) :: rest)) = Err EBadMapKey.
+Proof.
+  intros Hk. rewrite marshal_eq. cbn [marshal_body]. unfold map_kt, map_vt. cbn [underlying].
+  rewrite marshal_entries_cons, Hk. reflexivity.
+Qed.
+
+(* anywhere in the map, provided the entries are typed *)
+Theorem bad_key_rejected_anywhere o t kt vt isnil m k x :
+  underlying t = TMap kt vt -> has_type t (GMap isnil m) = true -> In (k, x) m ->
+  marshal default_opts kt k = Ok [T KNaN VNone] ->
+  marshal o t (GMap isnil m) = Err EBadMapKey.
+Proof.
+  intros Hu Ht Hin Hk.
+  rewrite has_type_map, Hu in Ht. apply andb_true_iff in Ht. destruct Ht as [_ Ht].
+  pose proof (typed_entries_Forall kt vt m Ht) as Ht1.
+  rewrite marshal_eq. cbn [marshal_body]. unfold map_kt, map_vt. rewrite Hu.
+  rewrite (entries_seqo o kt vt m Ht1).
+  assert (E : seqo (map (entry_of o kt vt) m) = None).
+  { clear Ht Ht1. induction m as [|p r IH]; [contradiction|].
+    cbn [map seqo]. destruct Hin as [E|Hin].
+    - subst p. unfold entry_of at 1. cbn [fst snd]. rewrite Hk. reflexivity.
+    - rewrite (IH Hin). destruct (entry_of o kt vt p); reflexivity. }
+  rewrite E. reflexivity.
+Qed.
+
+Example bad_key_rejected_ex :
+  marshal default_opts (TMap TF64 TBool) (GMap false [(GF64 1, GBool true); (GF64 9221120237041090561, GBool true)])
+  = Err EBadMapKey /\
+  marshal default_opts (TMap (TPtr TF32) TBool) (GMap false [(GPtr (Some (GF32 2143289344)), GBool true)])
+  = Err EBadMapKey.
+Proof. split; reflexivity. Qed.
+
+Print Assumptions marshal_tokens_wf.
+Print Assumptions marshal_nonempty.
+Print Assumptions marshal_total.
+Print Assumptions marshal_ok_or_bad_key.
+Print Assumptions marshal_ptr.
+Print Assumptions marshal_any.
+Print Assumptions marshal_named_reg.
+Print Assumptions marshal_struct.
+Print Assumptions marshal_func.
+Print Assumptions map_sorted.
+Print Assumptions marshal_map_perm.
+Print Assumptions bad_key_rejected.
+Print Assumptions bad_key_rejected_anywhere.
